@@ -81,6 +81,7 @@ def run(ctx):
     gate_identity(ctx)
     numeric_gate_and_renderer(ctx)
     no_content_types(ctx)
+    required_value(ctx)
     from . import c04
     c04.check_before_store(ctx)          # attribute values reach their gate: every stored entry has been checked
     c04.check_attribute_gate(ctx)
@@ -470,6 +471,30 @@ def gate_identity(ctx):
 
 
 # ---------------------------------------------------------------------------------------------- V5 / V6
+def required_value(ctx):
+    sm, res = ctx.sm, ctx.res
+    res.rule('R-DOM.required-value', "a simple-typed element without a value is refused at serialisation (an empty element is not in the lexical space of its type)")
+    f = sm.func('XMLElement', '_check_required_value', T.M_XMLELEMENT)
+    g = cfg_of(f.node)
+    raises = [n for n in g.stmt_nodes() if n.kind == 'stmt' and isinstance(n.ast, ast.Raise)]
+    ok = False
+    for r in raises:
+        guards = []
+        for t, lab in dom.guards_of(g, r):
+            if t.kind == 'test':
+                conj = t.ast.values if isinstance(t.ast, ast.BoolOp) and isinstance(t.ast.op, ast.And) else [t.ast]
+                guards += [(unparse(c), lab) for c in conj]
+        ok = ok or ({('self.TYPE.get_xsd_tree().is_simple_type', 'T'), ('self.value_ is None', 'T')} == set(guards) or
+                    {('self.TYPE.get_xsd_tree().is_simple_type', 'T'), ('self._value is None', 'T')} == set(guards))
+    res.check(ok, 'R-DOM.required-value', f.fq, "`is_simple_type and value is None -> raise ValueError`, under no other condition", key='R-DOM.required-value|raise')
+    fc = sm.func('XMLElement', '_final_checks', T.M_XMLELEMENT)
+    g2 = cfg_of(fc.node)
+    calls = dom.nodes_calling(g2, lambda c: unparse(c.func) == 'self._check_required_value')
+    on = g2.edge_filter_assuming({'self.xsd_check': True})
+    res.check(bool(calls) and g2.path_avoiding(g2.entry, g2.exit, avoid=calls, edge_ok=on) is None, 'R-DOM.required-value', fc.fq,
+              "the final check of a checked element always includes the value check", key='R-DOM.required-value|called')
+
+
 def numeric_gate_and_renderer(ctx):
     sm, res = ctx.sm, ctx.res
     res.rule('R-TAINT.numeric', "a value admitted through an int gate has passed a bool exclusion; one admitted through a float gate has passed a finiteness "
